@@ -1,8 +1,87 @@
-import PB.Model.Updater
+import PBProofs.Lemmas.Updater
 import PB.Gen.Updater
+/-
+C19 — The updater selects the prescribed version and never purges what is needed.
+Property theorems only (helper lemmas live in PBProofs/Lemmas/Updater.lean; the declarative
+selection order is PB/Spec/Updater.lean).
+-/
 namespace PB.C19
-open PB PB.Updater
+open PB PB.Updater PB.Updater.Spec
 
+/-! ### Selection = the documented order -/
+
+/-- `selectVersion` (sort newest first, then the cascade) selects a version the documented order prescribes,
+    for every list of versions with pairwise different version numbers, all flags and every index setting;
+    it selects nothing only when there are no versions. -/
+theorem select_prescribed (fl : Flags) (r : Res) (hn : VerNodup r.versions) :
+    match (r.selectVersion fl).selected with
+    | none => r.versions = []
+    | some v => ∃ rv, rv ∈ r.versions ∧ rv.ver = v ∧ Prescribed fl r.index r.versions rv := by
+  simp only [Res.selectVersion]
+  cases h : selectFrom fl r.index (sortDesc r.versions) with
+  | none =>
+    have := selectFrom_nil_iff.mp h
+    have hp := (sortDesc_perm r.versions).length_eq
+    simp only [Option.map_none]
+    cases hv : r.versions with
+    | nil => rfl
+    | cons a t => rw [hv] at hp this; simp [this] at hp
+  | some rv =>
+    simp only [Option.map_some]
+    have hm := fun x => (mem_sortDesc (l := r.versions) (x := x))
+    exact ⟨rv, (hm rv).mp (selectFrom_mem h), rfl,
+      prescribed_congr hm (selectFrom_prescribed_sorted (sortDesc_sorted _) (verNodup_sortDesc hn) h)⟩
+
+/-- The documented order determines the version: the specification is a function of the *set* of versions. -/
+theorem prescribed_unique (fl : Flags) (idx : Option Bool) (vs : List RV) (hn : VerNodup vs) (a b : RV)
+    (ha : Prescribed fl idx vs a) (hb : Prescribed fl idx vs b) : a = b :=
+  prescribed_unique_aux hn ha hb
+
+/-- The result does not depend on how `sort.Sort` orders the slice: the cascade applied to *any* newest-first
+    arrangement of the same versions picks the same version (covers unstable sorting algorithms). -/
+theorem select_sort_independent (fl : Flags) (idx : Option Bool) (vs s s' : List RV) (hn : VerNodup vs)
+    (hp : s.Perm vs) (hs : Sorted s) (hp' : s'.Perm vs) (hs' : Sorted s') :
+    selectFrom fl idx s = selectFrom fl idx s' := by
+  cases h : selectFrom fl idx s with
+  | none =>
+    have := selectFrom_nil_iff.mp h
+    subst this
+    have : s' = [] := by
+      have := (hp'.trans hp.symm).length_eq
+      cases s' with
+      | nil => rfl
+      | cons a t => simp at this
+    subst this
+    simp [selectFrom]
+  | some a =>
+    cases h' : selectFrom fl idx s' with
+    | none =>
+      have := selectFrom_nil_iff.mp h'
+      subst this
+      have := (hp.trans hp'.symm).length_eq
+      cases s with
+      | nil => simp [selectFrom] at h
+      | cons a t => simp at this
+    | some b =>
+      have ha := prescribed_congr (fun x => hp.mem_iff) (selectFrom_prescribed_sorted hs (hn.perm hp.symm) h)
+      have hb := prescribed_congr (fun x => hp'.mem_iff) (selectFrom_prescribed_sorted hs' (hn.perm hp'.symm) h')
+      rw [prescribed_unique_aux hn ha hb]
+
+/-- Outside dev mode a blacklisted version is prescribed (hence selected) only as the last resort:
+    the current release is not selectable, nothing selectable qualifies in steps 3 and 4, and it is the newest version. -/
+theorem blacklisted_only_as_last_resort (fl : Flags) (idx : Option Bool) (vs : List RV) (rv : RV)
+    (hdev : fl.dev = false) (h : Prescribed fl idx vs rv) (hbl : rv.bl = true) :
+    LastResort fl idx vs ∧ Newest (fun _ => True) vs rv := by
+  cases h with
+  | dev h1 => simp [hdev] at h1
+  | current _ _ h3 => have := selectable_not_bl h3; simp [hbl] at this
+  | newestSelectable _ _ _ h4 => have := selectable_not_bl h4.2.1; simp [hbl] at this
+  | newestStable _ _ _ h4 => have := selectable_not_bl h4.2.1.2; simp [hbl] at this
+  | fallback _ h2 h3 h4 h5 => exact ⟨⟨h2, h3, h4⟩, h5⟩
+
+/-! ### Regenerated regex literals -/
+
+/-- The two regular expressions the hand-written matchers `matchFileVer` / `matchRawVersion` implement. -/
 theorem regex_literals :
     PB.Gen.Updater.fileVersionRegex = "_v[0-9]+-[0-9]+-[0-9]+(-[a-z]+)?" ∧
     PB.Gen.Updater.rawVersionRegex = "^[0-9]+\\.[0-9]+\\.[0-9]+(-[a-z]+)?$" := by decide
